@@ -948,7 +948,12 @@ impl<'p, W, R, T> CompilationScope<'p, W, R, T> {
                     }
                     for (param_type, arg) in spec.param_types.iter().zip(args) {
                         let arg_type = self.type_of(arg)?;
-                        if param_type.bind_in_assignment(&arg_type).is_none() {
+                        // a callable value has no generic parameters of its own: a type parameter in its
+                        // type is the enclosing function's and only accepts itself
+                        if !param_type
+                            .bind_in_assignment(&arg_type)
+                            .map_or(false, |bind| bind.is_empty())
+                        {
                             return Err(CompilationError::InvalidArgumentType {
                                 expected: param_type.clone(),
                                 got: arg_type,
